@@ -45,9 +45,10 @@ def rv_of(uid):
 class MTable:
     """model table: ordered columns + list of rows {'uid': int, 'f': {col: value}}"""
 
-    def __init__(self, cols, rows):
+    def __init__(self, cols, rows, untyped_empty=False):
         self.cols = list(cols)
         self.rows = rows
+        self.untyped_empty = untyped_empty  # build a 0-row table with Molecules.empty(labels)
 
     def copy(self):
         return MTable(self.cols, [{"uid": r["uid"], "f": dict(r["f"])} for r in self.rows])
@@ -65,6 +66,8 @@ def build_real(mt: MTable):
     if n == 0:
         if not mt.cols:
             return Molecules.empty()
+        if mt.untyped_empty:
+            return Molecules.empty(mt.cols)
         dts = {"int": pl.Int64, "float": pl.Float64, "str": pl.String, "bool": pl.Boolean}
         return Molecules(np.zeros((0, 3)), None,
                          features=pl.DataFrame({c: pl.Series(c, [], dtype=dts[COLS.get(c, "int")]) for c in mt.cols}))
@@ -186,7 +189,7 @@ def judge(d):
                 f[c] = vals[k % len(vals)] if vals else None
             rows.append({"uid": next_uid[0], "f": f})
             next_uid[0] += 1
-        mt = MTable(spec["cols"], rows)
+        mt = MTable(spec["cols"], rows, untyped_empty=bool(spec.get("untyped_empty")))
         return build_real(mt), mt
 
     def add(real, mt):
@@ -233,6 +236,9 @@ def judge(d):
             expect_raise(tag + " (coordinate-named feature)", fn, (ValueError,))
             check_all(tag)
             continue
+        if n == 0 and (name in ("sort", "drop_features", "with_features", "group_by", "cutby")
+                       or (name == "filter" and op["kind"] != "mask")):
+            continue  # the feature schema of an empty table is immaterial: no column references on it
         if name == "new":
             add(*new_table(op["spec"]))
         elif name == "copy":
@@ -321,12 +327,12 @@ def judge(d):
         elif name in ("concat", "concat_with"):
             tj = pick(reals, op["t2"])
             r2, m2 = reals[tj], models[tj]
-            same_schema = m2.cols == cols
+            same_schema = m2.cols == cols and not (mt.untyped_empty and not mt.rows) and not (m2.untyped_empty and not m2.rows)
             nullable = op["nullable"] or not same_schema
             if name == "concat":
                 tk = pick(reals, op["t3"])
                 parts_r, parts_m = [real, r2], [mt, m2]
-                if op["three"] and (models[tk].cols == cols or nullable):
+                if op["three"] and ((models[tk].cols == cols and (models[tk].rows or not models[tk].untyped_empty)) or nullable):
                     parts_r.append(reals[tk])
                     parts_m.append(models[tk])
                 if not nullable and not all(p.cols == cols for p in parts_m):
@@ -455,11 +461,11 @@ def values_for(kind):
 
 
 @st.composite
-def table_spec(draw, min_rows=0, min_cols=0):
-    cols = draw(st.lists(st.sampled_from(["ia", "ib", "fa", "fb", "sa", "sb", "ba"]), unique=True,
-                         min_size=min_cols, max_size=3))
-    return {"n": draw(st.integers(min_rows, 8)), "cols": cols,
-            "vals": {c: draw(values_for(COLS[c])) for c in cols}}
+def table_spec(draw, min_rows=0, min_cols=0, palette=("ia", "ib", "fa", "fb", "sa", "sb", "ba")):
+    cols = draw(st.lists(st.sampled_from(list(palette)), unique=True, min_size=min(min_cols, len(palette)), max_size=3))
+    n = draw(st.one_of(st.integers(min_rows, 8), st.sampled_from([min_rows, min_rows, 1, 2])))
+    return {"n": n, "cols": cols,
+            "vals": {c: draw(values_for(COLS[c])) for c in cols}, "untyped_empty": draw(st.booleans())}
 
 
 pred = st.fixed_dictionaries({"ci": st.integers(0, 5), "kind": st.sampled_from(["gt", "le", "eq", "is_null"]),
@@ -469,13 +475,13 @@ masks = st.lists(st.booleans(), max_size=8)
 
 
 @st.composite
-def op_strategy(draw):
+def op_strategy(draw, palette):
     name = draw(st.sampled_from(["new", "copy", "subset", "subset", "filter", "filter", "sort", "head", "tail",
                                  "sample", "concat", "concat_with", "append", "with_features", "drop_features",
                                  "group_by", "cutby", "reject"]))
     op = {"op": name, "t": draw(T)}
     if name == "new":
-        op["spec"] = draw(table_spec())
+        op["spec"] = draw(table_spec(palette=palette))
     elif name == "subset":
         op["kind"] = draw(st.sampled_from(["int", "slice", "list", "array", "mask"]))
         op["i"] = draw(st.integers(0, 20))
@@ -516,7 +522,9 @@ def op_strategy(draw):
 
 @st.composite
 def cases(draw):
-    return {"init": draw(table_spec(min_rows=1, min_cols=draw(st.sampled_from([0, 1, 2, 2, 2])))), "ops": draw(st.lists(op_strategy(), min_size=1, max_size=10))}
+    palette = draw(st.lists(st.sampled_from(["ia", "ib", "fa", "fb", "sa", "sb", "ba"]), unique=True, min_size=2, max_size=4))
+    return {"init": draw(table_spec(min_rows=1, min_cols=draw(st.sampled_from([0, 1, 2, 2, 2])), palette=palette)),
+            "ops": draw(st.lists(op_strategy(palette), min_size=1, max_size=10))}
 
 
 def nontrivial(d):
